@@ -436,6 +436,12 @@ Stuck(i) == CanGo([Cur EXCEPT !.pend = <<>>], pend[i])
 NoStuckWaiter == \A i \in 1..Len(pend) : ~Stuck(i)
 \* the deviation: a blocked acquireReader with an idle writer handle of a small file in the pool
 Starved == \E i \in 1..Len(pend) : pend[i].t = "r" /\ IdleSmall(Cur) # {}
+\* as written, S7 fails only in the shape of the named deviation
+AllIdleBlockOnlyStarved ==
+  (pend # <<>> /\ AllIdle(Cur)) => (IdleSmall(Cur) # {} /\ \A i \in 1..Len(pend) : pend[i].t = "r")
+StuckOnlyBehindStarved ==
+  \A i \in 1..Len(pend) : Stuck(i) =>
+     (pend[i].t = "w" /\ IdleSmall(Cur) # {} /\ \E j \in 1..Len(pend) : pend[j].t = "r")
 \* the unopened set holds only small files; no idle reader handle survives a blocked call
 UnopenedSmall == \A k \in Keys : fst[k] = "unopened" => fsize[k] < Nominal
 NoIdleReaderWhilePending == pend # <<>> => Total(ri) = 0
